@@ -196,6 +196,59 @@ def run(ctx):
         ctx.ob('C08.c2', ci.qual, ok, '' if ok else f'constructor takes {extra} but _with_exponent is inherited from EigenGate: `gate**t` rebuilds the gate without them',
                ci.mod.rel, ci.node.lineno)
 
+    # ------------------------------------------------------------------ C08.c3
+    ctx.rule('C08.c3', 'factory-parameter rebuild: a helper that rebuilds a gate through a class passed in as an argument (`gate_class(exponent=...)`) '
+             'passes, at every call site, each state-backing constructor parameter of the class actually passed (the global shift excepted where '
+             'extracting it is the helper\'s documented purpose)', floor=3, style='COH')
+    PURPOSE = {('cirq.ops.common_gates._extract_phase', 'global_shift'): "documented: 'Extracts the global phase field to its own gate'"}
+    from ..core import FuncInfo
+    for fi in sorted(repo.funcs.values(), key=lambda f: f.qual):
+        if '.testing.' in fi.qual or '.contrib.' in fi.qual:
+            continue
+        fparams = [a.arg for a in fi.node.args.args]
+        factory = {}
+        for c in ast.walk(fi.node):
+            if isinstance(c, ast.Call) and isinstance(c.func, ast.Name) and c.func.id in fparams and c.keywords and not c.args:
+                ann = None
+                for a in fi.node.args.args:
+                    if a.arg == c.func.id and a.annotation is not None:
+                        ann = ast.unparse(a.annotation)
+                if ann and ('type' in ann.lower()):
+                    factory[c.func.id] = c
+        if not factory:
+            continue
+        # call sites
+        for mod in repo.modules.values():
+            for n in ast.walk(mod.tree):
+                if isinstance(n, ast.Call) and (dotted(n.func) or '').split('.')[-1] == fi.name:
+                    r = repo.resolve(mod, dotted(n.func))
+                    if not (isinstance(r, FuncInfo) and r.node is fi.node):
+                        continue
+                    for pname, ctor_call in factory.items():
+                        idx = fparams.index(pname)
+                        arg = n.args[idx] if idx < len(n.args) else None
+                        if arg is None:
+                            continue
+                        K = repo.resolve_class(mod, arg)
+                        if K is None:
+                            continue
+                        info = coh.init_info(repo, K)
+                        if info is None or info[1] is None:
+                            continue
+                        p2f = F.init_param_to_field(repo, K)
+                        passed = {k.arg for k in ctor_call.keywords if k.arg}
+                        for k in ctor_call.keywords:
+                            if k.arg is None and isinstance(k.value, ast.Name):
+                                for a_ in ast.walk(fi.node):
+                                    if isinstance(a_, ast.Assign) and isinstance(a_.targets[0], ast.Name) and a_.targets[0].id == k.value.id:
+                                        for d_ in ast.walk(a_.value):
+                                            if isinstance(d_, ast.Dict):
+                                                passed |= {kk.value for kk in d_.keys if isinstance(kk, ast.Constant)}
+                        miss = [p for p in info[2] if p2f.get(p) and p not in passed and (fi.qual, p) not in PURPOSE]
+                        ctx.ob('C08.c3', f'{fi.qual}({K.name})' + (':' + ','.join(miss) if miss else ''), not miss,
+                               '' if not miss else f'{fi.name} rebuilds the gate as {K.name}({", ".join(sorted(passed))}=...) and drops `{miss[0]}` of the {K.name} it was given',
+                               mod.rel, n.lineno, construct=f'{fi.qual}({K.name})')
+
     # ------------------------------------------------------------------ C08.d
     ctx.rule('C08.d', '_value_equality_values_ and _value_equality_approximate_values_ of one class read the same fields', floor=2, style='COH')
     for ci in sorted(repo.classes.values(), key=lambda c: c.qual):
